@@ -126,6 +126,17 @@ type c17Case struct {
 	SstRev bool       `json:"sstRev"`
 	SST    []c17SI    `json:"sst"`
 	Sheets []c17Sheet `json:"sheets"`
+	Xml    c17Xml     `json:"xml"` // spelling of workbook.xml, relationships and cell attributes
+}
+
+type c17Xml struct {
+	Rev     bool   `json:"rev"`
+	Prefix  string `json:"prefix"`
+	Single  bool   `json:"single"`
+	Foreign bool   `json:"foreign"`
+	OC      bool   `json:"oc"`
+	Gaps    bool   `json:"gaps"`
+	Decl    string `json:"decl"`
 }
 
 // ------------------------------------------------------------ rendering
@@ -193,7 +204,8 @@ func c17Project(s string) (c17Disp, bool) {
 }
 
 func c17Workbook(c *c17Case) *ooxmlw.XWorkbook {
-	wb := &ooxmlw.XWorkbook{Extras: true, InfraFirst: true}
+	wb := &ooxmlw.XWorkbook{Extras: true, InfraFirst: true, Sp: ooxmlw.Spelling{Rev: c.Xml.Rev, RelPrefix: c.Xml.Prefix, Single: c.Xml.Single,
+		Foreign: c.Xml.Foreign, OpenClose: c.Xml.OC, Gaps: c.Xml.Gaps, Decl: c.Xml.Decl}}
 	for _, e := range c.SST {
 		wb.SST = append(wb.SST, ooxmlw.XSI{Text: c17Tok(e.V), Rich: e.Rich, Empty: e.Empty})
 	}
